@@ -411,6 +411,10 @@ func (p *Prog) forwardsTo(key string, depth int) []string {
 	if fn == nil {
 		return nil
 	}
+	// only package-level functions: a method call on the receiver's state (t.m.Lock()) is not forwarding
+	if sig, _ := fn.Type().(*types.Signature); sig == nil || sig.Recv() != nil {
+		return nil
+	}
 	out := []string{fkey(fn.Origin())}
 	return append(out, p.forwardsTo(out[0], depth+1)...)
 }
